@@ -226,6 +226,20 @@ class Ctx:
 
     # -- lean gate ---------------------------------------------------------------------------
     def lean_gate(self):
+        try:
+            self._lean_gate()
+        finally:
+            # from here on only the implementation under test and the model driver run: cap the address space so that a
+            # change which makes the implementation allocate without bound ends as a (reported) RuntimeError / MemoryError of
+            # that call instead of exhausting the machine
+            try:
+                import resource
+                cap = int(os.environ.get("VERIF_MEM_GB", "40")) << 30
+                resource.setrlimit(resource.RLIMIT_AS, (cap, cap))
+            except Exception:  # noqa: BLE001
+                pass
+
+    def _lean_gate(self):
         if os.environ.get("VERIF_DEV_SKIP_LEAN") == "1":
             # development aid only (mutation testing of the correspondence); never set by MANIFEST commands
             self.notes.append("LEAN GATE SKIPPED (VERIF_DEV_SKIP_LEAN=1): this run proves nothing")
